@@ -55,14 +55,14 @@ var known = ev.Matcher[Case]{
 }
 
 const rule = "plans of mysql/postgres/sqlite.DefaultPlan over the feature-rich base schema (create all / drop all / 1-5 catalogue edits) with 0-3 adversarial strings injected into literal positions " +
-	"(table, column and index comments, string defaults, check expression literals, enum values) and, as separate classes, into identifiers (column, index, table names); " +
+	"(table, column and index comments, string defaults, check expression literals, enum values) and, as separate classes, into identifiers (column, index, table names, incl. the table whose name opens the first comment line of the file); " +
 	"x indent {'', two spaces, tab} x formatter {atlas, golang-migrate, goose, flyway, liquibase, dbmate} x (atlas only) delimiter {default, ;;, \\n\\n, $$, //}. " +
 	"Files are written to a directory, read back with the matching directory type and migrate.FileStmts(driver, file) — the path `migrate apply` uses. " +
 	"Oracle: same statement count, same order, text == Cmd (+ the kept ';' under the default delimiter), nothing from comment lines becomes a statement. " +
 	"non-trivial = >=1 injected string containing a hostile character; distinct key = (dialect, formatter, delimiter, scenario, hostile-class set, sites)"
 
 var hostile = []string{"plain", "it's", `say "hi"`, `one " dq`, `\" escaped dq`, "end quote'", `"`, "'", "back`tick", "semi;colon", "semi;\ncolon;", "dash -- dash", "/* open", "close */", "# hash", "$$ dollars $$", `back\slash`, `trailing\`,
-	"new\nline", "DELIMITER $$", "GO", "-- atlas:delimiter ;;", "(paren", "paren)", "two\n\nnewlines", "tab\there", "ünï", "%s%d", "';DROP TABLE x;--"}
+	"new\nline", "DELIMITER $$", "GO", "-- atlas:delimiter ;;", "atlas:delimiter x", " atlas:txmode none", "atlas:checkpoint", "(paren", "paren)", "two\n\nnewlines", "tab\there", "ünï", "%s%d", "';DROP TABLE x;--"}
 
 func classOf(s string) string {
 	var cs []string
@@ -76,7 +76,7 @@ func classOf(s string) string {
 }
 
 var litSites = []string{"table-comment", "column-comment", "default", "check", "enum-value", "enum-value-first", "enum-value-middle", "index-comment"}
-var identSites = []string{"column-name", "index-name", "table-name"}
+var identSites = []string{"column-name", "index-name", "table-name", "first-table-name"}
 var formatters = []string{"atlas", "golang-migrate", "goose", "flyway", "liquibase", "dbmate"}
 
 func genCase(idents bool) func(t *rapid.T) Case {
